@@ -166,12 +166,26 @@ package component_definition
 // ---- Meta construction (C01, C03, C11) -----------------------------------------------------------------------------
 // NewMeta scans the component's fields by reflection (C11); here: the Meta is fresh, built, and its Value / Raw are
 // the component itself.
+// PlainComponent(c): c is a component object, not a reflect.Value / reflect.Type (naming and scanning treat those two specially)
+//@ spec func PlainComponent(c any) bool = c != nil && !typeIs(c, reflect.Value) && !implements(c, reflect.Type)
+
+//@ func NewBase
+//@ property C11 C01
+//@ assigns nothing
+//@ ensures [base] fresh(result) && result.Type == RDynType(c) && RTypeOf(result.Value) == RDynType(c) && result.originAddress == RPtr(result.Value) && RValid(result.Value) == (c != nil) && implies(c != nil, result.Type != nil && RInterface(result.Value) == c)
+
+// NewMeta: a fresh Meta whose Value / Raw are the component, named as GetComponentNameWithAlias says, with its
+// settable leaf fields scanned (FieldsInv) and empty property groups. The scan runs with ScanTarget set to the new Meta.
 //@ func NewMeta
-//@ trusted
-//@ requires [component-non-nil] c != nil
+//@ property C11 C01 C03
+//@ requires [component-non-nil] PlainComponent(c)
 //@ assigns RTop
+//@ let t0 = ScanTarget
 //@ ensures [built] MetaOK(result) && fresh(result) && fresh(result.Base) && fresh(result.dependentSet) && RTop >= old(RTop)
 //@ ensures [value-is-raw] result.Raw == c && result.ProxyMeta == nil && len(result.Dependent) == 0
+//@ ensures [scanned] FieldsInv(result) && result.propertyGroup != nil && fresh(result.propertyGroup)
+//@ ghost before call scanFields: ScanTarget = m
+//@ ghost after call scanFields: ScanTarget = t0
 
 //@ func (*Meta).SetName
 //@ property C03 C07
@@ -181,7 +195,7 @@ package component_definition
 //@ func CreateProxy
 //@ property C03 C01
 //@ requires [no-interceptors] len(interceptors) == 0
-//@ requires [named] name != "" && newComponent != nil
+//@ requires [named] name != "" && PlainComponent(newComponent)
 //@ assigns RTop
 //@ ensures [proxy-built] result1 == nil && MetaOK(result0) && fresh(result0) && result0.Raw == newComponent && result0.ProxyMeta == origin && len(result0.Dependent) == 0 && RTop >= old(RTop)
 //@ ensures [proxy-keeps-name] result0.Name() == name || (name == result0.name && result0.alias != "")
@@ -321,7 +335,7 @@ package component_definition
 //@ requires-at-creation [captured] m != nil && m == ScanTarget && holder != nil && holder.Meta == m
 //@ requires [scanning] ScanTarget == m && FieldsInv(m)
 //@ requires [field-descriptor] field.Type != nil && RTypeOf(value) == field.Type
-//@ assigns m.Fields, VisitLen, VisitAt
+//@ assigns m.Fields
 //@ ensures [fields-inv-kept] FieldsInv(m)
 //@ ensures [fields-only-grow] len(m.Fields) >= len(old(m.Fields)) && forall(k, int, implies(0 <= k && k < len(old(m.Fields)), m.Fields[k] == old(m.Fields[k])))
 //@ ensures [settable-leaf-recorded] implies(!Embeds(field) && RCanSet(value), len(m.Fields) == len(old(m.Fields)) + 1 && m.Fields[len(m.Fields) - 1].StructField == field && m.Fields[len(m.Fields) - 1].Value == value && m.Fields[len(m.Fields) - 1].Holder == holder)
@@ -332,7 +346,7 @@ package component_definition
 //@ property C11
 //@ requires [scanning] m != nil && ScanTarget == m && FieldsInv(m)
 //@ requires [holder-built] HolderOK(m, holder)
-//@ assigns m.Fields, VisitLen, VisitAt
+//@ assigns m.Fields
 //@ ensures [fields-inv-kept] FieldsInv(m)
 //@ ensures [fields-only-grow] len(m.Fields) >= len(old(m.Fields)) && forall(k, int, implies(0 <= k && k < len(old(m.Fields)), m.Fields[k] == old(m.Fields[k])))
 
